@@ -31,7 +31,15 @@ func (r *c02run) invariants(where string) {
 	tip := blocks.LastHeight()
 	r.checks++
 	var prev *bitcoin.Hash32
-	for h := 0; h <= tip; h++ {
+	lo := 0
+	if tip > 60 {
+		// long chains: the last forty heights and everything from just below the newest file boundary
+		lo = tip - 40
+		if b := (tip/1000)*1000 - 2; b >= 0 && b < lo {
+			lo = b
+		}
+	}
+	for h := lo; h <= tip; h++ {
 		hdr, err := blocks.Header(ctx, h)
 		if err != nil {
 			// the chain may have been shortened by the other thread between LastHeight and here
@@ -66,7 +74,7 @@ func (r *c02run) invariants(where string) {
 			c.Violate("inverse", where, "Contains(%s)=%v but Height exists=%v", b, cont, ok)
 			return
 		}
-		if ok {
+		if ok && (hgt >= lo || b.Height >= lo) {
 			got, err := blocks.Hash(ctx, hgt)
 			if err != nil || *got != b.Hash {
 				if blocks.LastHeight() < hgt {
@@ -127,16 +135,24 @@ func runC02(c *Ctx) {
 	r := &c02run{c: c, ns: ns, ann: map[int]bitcoin.Hash32{}, top: -1}
 	// tree: an initial chain and a few branches
 	pre := pickFrom(t, 0, 1, 3, 6)
+	if t.Bool(1, 16) {
+		pre = pickFrom(t, 990, 994, 997, 998, 999) // the stored chain crosses a 1000-header file boundary
+		c.Probe("file_boundary")
+	}
 	tip := ns.BuildChain(ns.Tree.Genesis, pre, nil)
 	ns.Start = ns.BuildChain(tip, 1, nil)
 	main := ns.BuildChain(ns.Start, 2+int(t.Choose(8)), nil)
 	ns.Trusted.Best = main
 	nb := 1 + int(t.Choose(3))
+	lowest := 1
+	if pre > 20 {
+		lowest = pre - 6 // branch points and Byzantine material near the tip, not hundreds of blocks deep
+	}
 	for i := 0; i < nb; i++ {
-		from := ns.Tree.Blocks[1+int(t.Choose(uint32(len(ns.Tree.Blocks)-1)))]
+		from := ns.Tree.Blocks[lowest+int(t.Choose(uint32(len(ns.Tree.Blocks)-lowest)))]
 		ns.BuildChain(from, 1+int(t.Choose(6)), nil)
 	}
-	all := ns.Tree.Blocks
+	all := ns.Tree.Blocks[lowest-1:]
 	unknownHdr := func() *wire.BlockHeader {
 		prev := dsha([]byte(fmt.Sprint("unknown-parent", t.Choose(1000))))
 		return &wire.BlockHeader{Version: 1, PrevBlock: prev, MerkleRoot: dsha([]byte("x")), Timestamp: 1700000000, Bits: 0x1d00ffff, Nonce: t.Choose(1 << 30)}
@@ -145,6 +161,9 @@ func runC02(c *Ctx) {
 		hm := wire.NewMsgHeaders()
 		b := all[t.Choose(uint32(len(all)))]
 		chain := Chain(b)
+		if len(chain) > 40 {
+			chain = chain[len(chain)-20:]
+		}
 		lo := int(t.Choose(uint32(len(chain))))
 		seg := chain[lo:]
 		if len(seg) > 12 {
